@@ -209,8 +209,20 @@ def run_junc(chk, rng, ncases, grounds=(None, None, 'ideal')):
 
 def zl(l): return coq_list(['(%d)' % x for x in l])
 
+def tag_probes(rng):
+    """chains of 2-4 wires with every pattern of untagged objects followed by small explicit tags"""
+    out = []
+    P = [[0.0, 0.0, 1.0], [0.2, 0.1, 4.0], [2.1, 0.3, 5.2], [2.4, 2.5, 6.8], [4.4, 2.9, 7.1]]
+    pats = [[None, 1], [None, 2], [None, None, 1], [None, None, 2], [None, 2, 1], [None, 1, None], [None, 3, None, 1], [None, None, 3, 1],
+            [2, None, 3], [None, 4, None, 5]]
+    for k, pat in enumerate(pats):
+        wires = [gen.wire(3 + (i % 2), P[i], P[i + 1], 0.002, tag=t) for i, t in enumerate(pat)]
+        out.append(dict(id=10 ** 6 + k, seed=rng.randrange(10 ** 9),
+                        spec=dict(f=15.0, wires=wires, media=None, family='tag-probe', tagmode='lowmixed', sources=[], loads=[])))
+    return out
+
 def run_addr(chk, rng, ncases, grounds=(None, None, 'ideal')):
-    cases = gen_cases(rng, ncases, grounds)
+    cases = tag_probes(rng) + gen_cases(rng, ncases, grounds)
     good, errs = _run_generic(chk, 'topo.addr', cases, 'addr')
     if not all(vo_ok(f) for f in ('Corr/TopoDriver.v', 'Model/Report.v', 'Model/Topology.v')):
         chk.tie_broken('correspondence', 'addr', 'model (Model/Report.v) does not compile')
